@@ -47,7 +47,13 @@ func (m *CSMatrix) SetMajorDim(dim int) {
 	if cap(m.Entries) < dim {
 		m.Entries = append(make([][]Entry, 0, dim), m.Entries...)
 	}
+	oldLen := len(m.Entries)
 	m.Entries = m.Entries[:dim]
+	for i := oldLen; i < dim; i++ {
+		// rows re-exposed from spare capacity may hold stale spans
+		// cut off by an earlier shrink; they must read as empty.
+		m.Entries[i] = nil
+	}
 	m.MajorDim = dim
 }
 
